@@ -115,7 +115,49 @@ func Semantic(j *job.Job, s *job.Sink) {
 		for _, m := range regexp.MustCompile(`import \S+ \{ prefix (\S+); \}`).FindAllStringSubmatch(t, -1) {
 			impPfx = append(impPfx, m[1])
 		}
-		switch r.Intn(16) {
+		switch r.Intn(17) {
+		case 16:
+			// a deviate that cannot be applied (it deletes a default the leaf does not have), in
+			// a deviating module added to the set, now and then next to a second one of the same
+			// kind: the error names the deviate statement
+			res := &schema.Resolver{Mods: g.Mods}
+			res.Resolve()
+			var leaves []*schema.X
+			var walk func(x *schema.X)
+			walk = func(x *schema.X) {
+				if x.Kind == "leaf" && x.Parent != nil {
+					leaves = append(leaves, x)
+				}
+				var ks []string
+				for k := range x.Children {
+					ks = append(ks, k)
+				}
+				sort.Strings(ks)
+				for _, k := range ks {
+					walk(x.Children[k])
+				}
+			}
+			var rms []*schema.Mod
+			for m := range res.Roots {
+				rms = append(rms, m)
+			}
+			sort.Slice(rms, func(a, b int) bool { return rms[a].Name < rms[b].Name })
+			if len(res.Errs) == 0 && len(rms) > 0 {
+				rm := rms[r.Intn(len(rms))]
+				walk(res.Roots[rm])
+				if len(leaves) > 0 {
+					x := leaves[r.Intn(len(leaves))]
+					path := ""
+					for n := x; n.Parent != nil; n = n.Parent {
+						path = "/t:" + n.Name + path
+					}
+					fn = "zzdev.yang"
+					t = fmt.Sprintf("module zzdev {\n  namespace \"urn:zzdev\";\n  prefix zzdev;\n  import %s { prefix t; }\n  deviation %s {\n    deviate delete {\n      default zzzznosuchdefault;\n    }\n  }\n}\n", rm.Name, path)
+					names = append(names, fn)
+					desig = strings.Index(t, "    deviate delete") + 4
+					fault, want = "deviate that cannot be applied", []string{"deviate"}
+				}
+			}
 		case 15:
 			// an identity, or an identityref, whose base does not resolve (own prefix or none)
 			pf := ""
